@@ -1,8 +1,12 @@
 #!/bin/bash
 # usage: import_seed.sh PROP "tests" "needs A" "needs B"  -- copies /tmp/seed-PROP/_seed/{A,B} to seeded/, confirms each, removes the worktree
+# round 2: ROUND=2 import_seed.sh ...  reads /tmp/seed2-PROP/_seed/{A,B} and stores them as seeded/PROP_C, PROP_D
 p=$1; tests=$2
+src=/tmp/seed-$p; T1=A; T2=B
+if [ "${ROUND:-1}" = "2" ]; then src=/tmp/seed2-$p; T1=C; T2=D; fi
 for L in A B; do
-  d=/verif/seeded/${p}_$L; mkdir -p $d; cp /tmp/seed-$p/_seed/$L/patch.diff /tmp/seed-$p/_seed/$L/demo.py /tmp/seed-$p/_seed/$L/notes.md $d/
+  if [ $L = A ]; then T=$T1; else T=$T2; fi
+  d=/verif/seeded/${p}_$T; mkdir -p $d; cp $src/_seed/$L/patch.diff $src/_seed/$L/demo.py $src/_seed/$L/notes.md $d/
   if grep -q '"\.\.", "\.\.", "tests"' $d/demo.py; then
     python3 - $d/demo.py <<'PY'
 import sys,re
@@ -15,7 +19,7 @@ if m:
 PY
   fi
 done
-/verif/tools/verify_seed.py /verif/seeded/${p}_A $p "$tests" "$3" &
-/verif/tools/verify_seed.py /verif/seeded/${p}_B $p "$tests" "$4" &
+/verif/tools/verify_seed.py /verif/seeded/${p}_$T1 $p "$tests" "$3" &
+/verif/tools/verify_seed.py /verif/seeded/${p}_$T2 $p "$tests" "$4" &
 wait
-git -C /repo worktree remove --force /tmp/seed-$p
+git -C /repo worktree remove --force $src
